@@ -190,7 +190,8 @@ def partial_trace(
     if isinstance(sys, int):
         sys = np.array([sys])
 
-    set_diff = list(set(list(range(num_sys))) - set(sys))
+    # Sorted: the remaining subsystems keep their original order (set iteration order is not sorted in general).
+    set_diff = sorted(set(range(num_sys)) - set(sys))
     perm = set_diff
     perm.extend(sys)
 
